@@ -223,6 +223,14 @@ func genMisroute(g *Rng, tier string) *Plan {
 		if g.Bool(0.25) {
 			spec.Pretty, a.Pretty = true, true
 		}
+		if g.Bool(0.12) {
+			// unused namespace declarations named after the attributes that say whom the message is for, reading what this SP wants to
+			// see there (or, for a correctly addressed message, somebody else's URL): added in flight, they address nothing
+			v := Pick(g, misACS, misACS, "https://other-sp.example.net/saml/acs")
+			spec.NSDecls = []NSDecl{{On: "Response", Prefix: "Destination", Value: v}, {On: "SubjectConfirmationData", Prefix: "Recipient", Value: v},
+				{On: "StatusCode", Prefix: "Value", Value: saml.StatusSuccess}}
+			st.Labels["unused-ns-declarations"] = "correct" // informational: they change nothing
+		}
 		spec.Assertions = []AsrtSpec{a}
 		if g.Bool(0.15) {
 			st.Decoy = Pick(g, "first", "first", "last")
